@@ -22,7 +22,10 @@ var c07LetNames = []string{"a", "c", "ij"}
 var c07Callees = []string{".u", ".r", ".nope"}
 var c07ParamNames = []string{"", "k", "zz", "q"}
 
-type c07Gen struct{ budget int }
+type c07Gen struct {
+	budget int
+	rOrder int // order of the soydoc lines of callee .r: -1 not yet chosen, 0 required first, 1 optional first
+}
 
 func (g *c07Gen) v() string { return c07Vars[verifChoose(len(c07Vars))] }
 
@@ -57,6 +60,9 @@ func (g *c07Gen) node(depth int) *qNode {
 		return &qNode{kind: 4, body: g.list(depth-1, 2)}
 	}
 	n := &qNode{kind: 5, callee: verifChoose(3), data: verifChoose(3), param: verifChoose(4)}
+	if n.callee == 1 && g.rOrder < 0 {
+		g.rOrder = verifChoose(2)
+	}
 	if n.param != 0 {
 		n.pcont = verifChoose(2) == 1
 		n.pval = g.v()
@@ -243,8 +249,16 @@ func (c *c07Check) walk(ns []*qNode) {
 	}
 }
 
-const c07Lib = "/** @param? a\n @param? b\n @param? k */\n{template .u}\n[{$a ?: 'n'}{$b ?: 'n'}{$k ?: 'n'}]\n{/template}\n" +
-	"/** @param q\n @param? a */\n{template .r}\n({$q}{$a ?: 'n'})\n{/template}\n"
+// c07Lib: the callees; the soydoc of .r lists its required param before (rOrder<=0) or after the
+// optional one.
+func c07Lib(rOrder int) string {
+	rdoc := "/** @param q\n @param? a */\n"
+	if rOrder == 1 {
+		rdoc = "/**\n * @param? a An optional one.\n * @param q The required one.\n */\n"
+	}
+	return "/** @param? a\n @param? b\n @param? k */\n{template .u}\n[{$a ?: 'n'}{$b ?: 'n'}{$k ?: 'n'}]\n{/template}\n" +
+		rdoc + "{template .r}\n({$q}{$a ?: 'n'})\n{/template}\n"
+}
 
 // H_datarefs: CheckDataRefs accepts exactly the generated bundles that satisfy the rules; for an
 // accepted bundle, rendering with every declared param supplied looks up no unbound name.
@@ -256,7 +270,7 @@ func H_datarefs(depth, budget int, declA, declB bool) { c07Run(depth, budget, de
 func H_datarefsLate(depth, budget, late int) { c07Run(depth, budget, true, true, late) }
 
 func c07Run(depth, budget int, declA, declB bool, late int) {
-	g := &c07Gen{budget: budget}
+	g := &c07Gen{budget: budget, rOrder: -1}
 	prog := g.list(depth, 3)
 	doc := "/**"
 	params := map[string]bool{"l": true, "m": true}
@@ -272,12 +286,13 @@ func c07Run(depth, budget int, declA, declB bool, late int) {
 	body := c07Src(prog)
 	main := doc + "{template .t}\n" + body + "{if $l}{$m.a}{/if}\n{/template}\n"
 	const lateTpl = "/** @param a\n @param? b */\n{template .late}\nlate\n{/template}\n"
-	src := "{namespace n}\n" + main + c07Lib
+	lib := c07Lib(g.rOrder)
+	src := "{namespace n}\n" + main + lib
 	switch late {
 	case 1:
-		src = "{namespace n}\n" + main + c07Lib + lateTpl
+		src = "{namespace n}\n" + main + lib + lateTpl
 	case 2:
-		src = "{namespace n}\n" + lateTpl + main + c07Lib
+		src = "{namespace n}\n" + lateTpl + main + lib
 	}
 	verifObserve("body", body)
 	chk := &c07Check{params: params, used: map[string]bool{"l": true, "m": true}, direct: map[string]bool{}, letNames: map[string]bool{}}
